@@ -1,6 +1,8 @@
 package hx
 
 import (
+	"sync"
+
 	"crypto/ed25519"
 	"crypto/sha256"
 	"fmt"
@@ -15,6 +17,7 @@ import (
 // Names maps the specification's model values (c1, c2, p1 ...) to concrete
 // values, deterministically from the seed, and back.
 type Names struct {
+	mu     sync.Mutex
 	seed   int64
 	cids   map[string]cid.Cid
 	rcids  map[string]string
@@ -32,6 +35,8 @@ func NewNames(seed int64) *Names {
 
 // Cid returns the concrete CID of an abstract name.
 func (n *Names) Cid(name string) cid.Cid {
+	n.mu.Lock()
+	defer n.mu.Unlock()
 	if c, ok := n.cids[name]; ok {
 		return c
 	}
@@ -50,6 +55,8 @@ func (n *Names) Cid(name string) cid.Cid {
 
 // CidName returns the abstract name of a concrete CID ("?<cid>" when unknown).
 func (n *Names) CidName(c cid.Cid) string {
+	n.mu.Lock()
+	defer n.mu.Unlock()
 	if s, ok := n.rcids[c.String()]; ok {
 		return s
 	}
@@ -58,9 +65,12 @@ func (n *Names) CidName(c cid.Cid) string {
 
 // Peer returns the concrete peer ID of an abstract name.
 func (n *Names) Peer(name string) peer.ID {
+	n.mu.Lock()
 	if p, ok := n.peers[name]; ok {
+		n.mu.Unlock()
 		return p
 	}
+	n.mu.Unlock()
 	sum := sha256.Sum256([]byte(fmt.Sprintf("peer/%d/%s", n.seed, name)))
 	priv := ed25519.NewKeyFromSeed(sum[:])
 	pk, err := crypto.UnmarshalEd25519PublicKey(priv.Public().(ed25519.PublicKey))
@@ -77,12 +87,16 @@ func (n *Names) Peer(name string) peer.ID {
 
 // SetPeer binds an abstract name to an existing peer ID (e.g. a live host).
 func (n *Names) SetPeer(name string, p peer.ID) {
+	n.mu.Lock()
 	n.peers[name] = p
 	n.rpeers[p] = name
+	n.mu.Unlock()
 }
 
 // PeerName returns the abstract name of a peer ID.
 func (n *Names) PeerName(p peer.ID) string {
+	n.mu.Lock()
+	defer n.mu.Unlock()
 	if s, ok := n.rpeers[p]; ok {
 		return s
 	}
